@@ -19,8 +19,25 @@ PID = 'C05'
 NETS = ['bitcoin', 'testnet', 'testnet4', 'signet', 'regtest', 'litecoin', 'litecoin_legacy', 'litecoin_testnet',
         'dogecoin', 'dogecoin_testnet', 'bitcoinlib_test']
 JVM_ENV = {'JAVA_TOOL_OPTIONS': '-Xss48m'}       # the Bech32 folds recurse deeper than the default 1 MB thread stack
-OBJ_ROUTES = ('parse', 'parse_nw', 'obj', 'hdkey', 'tx_obj', 'tx_hdkey')
-KEY_ROUTES = ('hdkey', 'tx_hdkey')
+OBJ_ROUTES = ('parse', 'parse_nw', 'obj', 'obj_data', 'hdkey', 'tx_obj', 'tx_hdkey', 'akey', 'tx_akey')
+KEY_ROUTES = ('hdkey', 'tx_hdkey', 'akey', 'tx_akey')     # akey: the key's Address object (key.address_obj) is handed over
+
+
+_FRESH_ADDR = {}
+_PUBS = {}
+
+
+def make_key(job, network):
+    """The HD key object of a key job: master / child / public-only variant, single-sig or multisig (co-signer) key."""
+    from bitcoinlib.keys import HDKey
+    k = HDKey.from_seed(bytes.fromhex(job['seed']), witness_type=job['wt'] or 'segwit', multisig=bool(job.get('ms')),
+                        network=network)
+    var = job.get('variant') or 'master'
+    if var in ('child', 'child_public'):
+        k = k.subkey_for_path("m/45'/0/3")
+    if var in ('public', 'child_public'):
+        k = k.public()
+    return k
 
 # "prior calls": what a caller may have done with the same object before handing it to Output / add_output.  All of
 # them are queries (or, for netchange, a documented setter applied before); the destination an object stands for
@@ -101,6 +118,8 @@ def _facts_for(needs, known):
             known[key] = ref.sha256d(key[1])[:4]
         elif n['f'] == 'hash160':
             known[key] = ref.hash160(key[1])
+        elif n['f'] == 'sha256':
+            known[key] = ref.sha256(key[1])
         else:
             raise common.MachineryError('specification asked for unknown primitive %r' % n['f'])
 
@@ -151,13 +170,18 @@ def build_key(job):
     if r in ('lock', 'lock_ns', 'parse_out'):
         key = ('script', job['y'], job['dk'], job['wv'], job['p'], job['mut'])
         return key, {'what': 'script', 'x': job['y'], 'y': job['y'], 'dk': job['dk'], 'wv': job['wv'], 'p': p,
-                     'mut': job['mut'], 'wt': ''}
+                     'mut': job['mut'], 'wt': '', 'ms': False, 'pub': [], 'st': ''}
     if r in KEY_ROUTES:
-        key = ('key', job['x'], job['wt'], job['p'])
-        return key, {'what': 'key', 'x': job['x'], 'y': job['y'], 'dk': '', 'wv': 0, 'p': p, 'mut': '', 'wt': job['wt']}
+        key = ('key', job['x'], job['wt'], bool(job.get('ms')), job['pub'])
+        return key, {'what': 'key', 'x': job['x'], 'y': job['y'], 'dk': '', 'wv': 0, 'p': p, 'mut': '', 'wt': job['wt'],
+                     'ms': bool(job.get('ms')), 'pub': list(bytes.fromhex(job['pub'])), 'st': ''}
+    if r == 'obj_data':
+        key = ('data', job['x'], job['st'], job['data'])
+        return key, {'what': 'data', 'x': job['x'], 'y': job['y'], 'dk': '', 'wv': 0, 'p': [], 'mut': '', 'wt': '',
+                     'ms': False, 'pub': list(bytes.fromhex(job['data'])), 'st': job['st']}
     key = ('addr', job['x'], job['dk'], job['wv'], job['p'])
     return key, {'what': 'addr', 'x': job['x'], 'y': job['y'], 'dk': job['dk'], 'wv': job['wv'], 'p': p, 'mut': '',
-                 'wt': ''}
+                 'wt': '', 'ms': False, 'pub': [], 'st': ''}
 
 
 # ------------------------------------------------------------------------------------------------ drive (code under test)
@@ -204,12 +228,12 @@ def drive(job, b):
     a0 = text(b['addr'])
     if r == 'pubkey' and job['st'] == 'p2tr':
         a0 = ''       # a P2TR output from a public key needs the taproot tweak: outside what this specification builds
-    isk = r in KEY_ROUTES
+    isk = r in KEY_ROUTES or r == 'obj_data'
     prior = list(job.get('prior') or [])
     rec = {'k': 'fwd', 'route': r, 'x': job['x'], 'y': y, 'dk': b['dk'] if isk else job['dk'],
            'wv': b['wv'] if isk else job['wv'], 'p': b['p'] if isk else list(p), 'st': job.get('st', ''),
            'a0': codes(a0), 'hasobj': r in OBJ_ROUTES, 'objok': True, 'oa': [], 'facts': [], 'prior': prior,
-           'pu': list(bytes.fromhex(job.get('pu', '')))}
+           'pu': list(bytes.fromhex(job.get('pu', ''))), 'ot': ''}
     st = job.get('st') or None
     if r == 'str':
         rec['obs'] = _observe(lambda: Output(1000, address=a0, network=y))
@@ -234,15 +258,24 @@ def drive(job, b):
                 obj = Address(hashed_data=p, script_type=st, network=job['x'], **kw)
                 oa = obj.address
                 apply_priors(ADDR_PRIORS, obj, prior)
+            elif r == 'obj_data':
+                obj = Address(data=bytes.fromhex(job['data']), script_type=st, network=job['x'])
+                oa = obj.address
+                apply_priors(ADDR_PRIORS, obj, prior)
             else:
                 # the object handed over has a history (prior calls); its own address is asked from a second, fresh
                 # object of the same key so that the question itself is not one more prior call
-                sd = bytes.fromhex(job['seed'])
-                obj = HDKey.from_seed(sd, witness_type=job['wt'], network=job.get('x0') or job['x'])
+                obj = make_key(job, job.get('x0') or job['x'])
                 if ref.hash160(obj.public_byte) != p:
-                    raise common.MachineryError('HDKey.from_seed is not deterministic')
-                oa = HDKey.from_seed(sd, witness_type=job['wt'], network=job['x']).address()
+                    raise common.MachineryError('HD key derivation is not deterministic')
+                ck_ = (job['seed'], job['wt'], bool(job.get('ms')), job.get('variant'), job['x'])
+                if ck_ not in _FRESH_ADDR:
+                    _FRESH_ADDR[ck_] = make_key(job, job['x']).address()
+                oa = _FRESH_ADDR[ck_]
                 apply_priors(KEY_PRIORS, obj, prior)
+                if r in ('akey', 'tx_akey'):
+                    obj = obj.address_obj
+            rec['ot'] = str(getattr(obj, 'script_type', '') or '')
         except common.MachineryError:
             raise
         except Exception:
@@ -250,7 +283,7 @@ def drive(job, b):
             rec['obs'] = dict(NOOBS)
             return rec
         rec['oa'] = codes(oa)
-        if r in ('tx_obj', 'tx_hdkey'):
+        if r in ('tx_obj', 'tx_hdkey', 'tx_akey'):
             def mk():
                 t = Transaction(network=y)
                 t.add_output(1000, obj)
@@ -324,7 +357,8 @@ def enumerate_jobs(rng, thorough, nets, allow_uncompressed=False):
             for sty in styles:
                 p = payload(rng, d[2], sty)
                 for y in nets:
-                    job('str', x, y, d, p)
+                    if sty == styles[0] or thorough or y == x or x in sweep:
+                        job('str', x, y, d, p)
             p = payload(rng, d[2], 'rand')
             for y in others(x, 2 if not thorough else 10):
                 job('tx', x, y, d, p)
@@ -341,6 +375,11 @@ def enumerate_jobs(rng, thorough, nets, allow_uncompressed=False):
             job('str', x, x, d, p)
             job('obj', x, x, d, p, st=lib_type(d[0], d[1], d[2]))
             job('parse', x, x, d, p)
+        # -- Address objects made from data (a public key / a script) and a script type
+        for st in ('p2pkh', 'p2sh', 'p2wpkh', 'p2wsh', 'p2sh_p2wpkh', 'p2sh_p2wsh'):
+            data = payload(rng, 33, 'key') if 'pkh' in st or rng.random() < 0.5 else b'\x52' + payload(rng, 70, 'rand') + b'\xae'
+            jobs.append({'route': 'obj_data', 'x': x, 'y': x, 'dk': '', 'wv': 0, 'p': '', 'st': st, 'mut': '', 'wt': '',
+                         'data': data.hex()})
         for d in UNK + UNK_ODD:
             if x not in sweep and d[1] not in (1, 2, 16):
                 continue
@@ -351,21 +390,32 @@ def enumerate_jobs(rng, thorough, nets, allow_uncompressed=False):
                 job('parse', x, x, d, p)
                 job('obj', x, x, d, p, st='p2tr')
         # -- HD keys
-        for wt in ('legacy', 'segwit', 'p2sh-segwit'):
+        for wt, ms in [(w, m) for w in ('legacy', 'segwit', 'p2sh-segwit') for m in (False, True)]:
             seed = payload(rng, 32, 'rand')
 
-            def kjob(route, y, prior, x0=''):
+            def kjob(route, y, prior, x0='', variant='master'):
                 jobs.append({'route': route, 'x': x, 'y': y, 'dk': '', 'wv': 0, 'p': '', 'st': '', 'mut': '', 'wt': wt,
-                             'seed': seed.hex(), 'prior': prior, 'x0': x0})
+                             'ms': ms, 'variant': variant, 'seed': seed.hex(), 'prior': prior, 'x0': x0})
             for y in others(x, 2 if not thorough else 10):
                 kjob('hdkey', y, [])
-            kjob('tx_hdkey', x, [])
+            # every kind of key object (master / child / public-only), directly, through a transaction, and through the
+            # Address object the key owns
+            for var in ('master', 'child', 'public', 'child_public'):
+                kjob('tx_hdkey', x, [], variant=var)
+                if var != 'master':
+                    kjob('hdkey', x, [], variant=var)
+                if var in ('master', 'child_public') or thorough:
+                    kjob('akey', x, [], variant=var)
+                    kjob('tx_akey', x, [], variant=var)
+            if ms and not (thorough or x in sweep):
+                kjob('hdkey', x, [rng.choice(['addr_default', 'wif', 'public', 'as_dict'])])
+                continue
             # -- the same key object with a history of one or two earlier calls
             singles = [n for n in KEY_PRIORS if allow_uncompressed or n not in UNCOMPRESSED_PRIORS]
             for n in singles:
-                if thorough or x in sweep or n.startswith('addr_'):
+                if thorough or x in sweep or (n.startswith('addr_') and (n in UNCOMPRESSED_PRIORS or rng.random() < 0.5)):
                     kjob('hdkey' if rng.random() < 0.6 else 'tx_hdkey', x, [n])
-            for _ in range(3 if not thorough else 12):
+            for _ in range(12 if thorough else 3 if x in sweep else 1):
                 kjob('hdkey' if rng.random() < 0.5 else 'tx_hdkey', x, [rng.choice(singles), rng.choice(singles)])
             x0 = rng.choice([n for n in nets if n != x])
             kjob('hdkey', x, ['netchange:' + x])
@@ -399,7 +449,7 @@ def enumerate_jobs(rng, thorough, nets, allow_uncompressed=False):
                 for m in muts:
                     job(route, y, y, d, payload(rng, d[2], 'rand'), mut=m)
             for d in UNK + UNK_ODD[::3 if not thorough else 1]:
-                if y in sweep or d[1] in (1, 2, 16):
+                if y in sweep or (d[1] in (1, 2, 16) and route != 'lock_ns'):
                     job(route, y, y, d, payload(rng, d[2], 'rand'), mut='none')
             for d in [('pkh', 0, 19), ('pkh', 0, 21), ('pkh', 0, 32), ('sh', 0, 19), ('sh', 0, 21), ('sh', 0, 32),
                       ('wit', 0, 19), ('wit', 0, 21), ('wit', 0, 31), ('wit', 0, 33), ('wit', 0, 2), ('wit', 0, 40),
@@ -419,16 +469,21 @@ def prepare_keys(jobs):
     from bitcoinlib.keys import HDKey
     for j in jobs:
         if j['route'] in KEY_ROUTES + ('pubkey',) and not j['p']:
-            k = HDKey.from_seed(bytes.fromhex(j['seed']), network=j['x'])
-            j['pub'] = k.public_byte.hex()
-            j['p'] = ref.hash160(k.public_byte).hex()
-            j['pu'] = ref.hash160(k.public_uncompressed_byte).hex()
+            ck_ = (j['seed'], j.get('variant'))
+            if ck_ not in _PUBS:
+                k = make_key(j, j['x'])
+                _PUBS[ck_] = (k.public_byte, k.public_uncompressed_byte)
+            pub, pubu = _PUBS[ck_]
+            j['pub'] = pub.hex()
+            j['p'] = ref.hash160(pub).hex()
+            j['pu'] = ref.hash160(pubu).hex()
 
 
 def klass(job, b):
     rel = 'same' if job['x'] == job['y'] else 'other'
     return (job['route'], job['dk'] or job['wt'], job['wv'], len(job['p']) // 2, job['mut'], job['st'], job['x'],
-            job['y'] if job['route'] in ('str', 'lock') else rel, tuple(job.get('prior') or ()), bool(job.get('x0')))
+            job['y'] if job['route'] in ('str', 'lock') else rel, tuple(job.get('prior') or ()), bool(job.get('x0')),
+            bool(job.get('ms')), job.get('variant') or '')
 
 
 def run(replay=None):
@@ -493,10 +548,12 @@ def run(replay=None):
                 bytes(o['lock']).hex(), o['type'], text(o['addr']), bytes(o['hash']).hex()))
             if rec['k'] == 'fwd':
                 what = 'Output via %s: %s destination %s/v%d/%s (address %s of %s) in a %s transaction' % (
-                    j['route'], j.get('st') or j.get('wt') or '', rec['dk'], rec['wv'], bytes(rec['p']).hex(),
+                    j['route'], (j.get('st') or j.get('wt') or '') + ('/multisig' if j.get('ms') else '') +
+                    ('/' + j['variant'] if j.get('variant') else ''), rec['dk'], rec['wv'], bytes(rec['p']).hex(),
                     text(rec['a0']) or '-', j['x'], j['y'])
                 if rec['hasobj']:
-                    what += ' [object address %s]' % (text(rec['oa']) if rec['objok'] else 'refused')
+                    what += ' [object address %s%s]' % (text(rec['oa']) if rec['objok'] else 'refused',
+                                                        ', object script_type %s' % rec['ot'] if rec['ot'] else '')
                 if rec['prior'] or j.get('x0'):
                     what += ' [object created on %s, earlier calls on it: %s]' % (j.get('x0') or j['x'], ', '.join(rec['prior']))
             else:
